@@ -570,3 +570,109 @@ func valueUses(v ssa.Value) []ssa.Instruction {
 	}
 	return out
 }
+
+// liftThroughLocalClosure: a call made inside a function literal that is only ever called
+// in place, at exactly one site of the enclosing function (`step := func(..) error {..};
+// ... if err := step(x); err != nil`), is represented by that site — provided a failure
+// of the inner call makes the literal fail (every return that may report success is only
+// reached when the inner call succeeded). Otherwise the call is returned unchanged.
+func liftThroughLocalClosure(call ssa.CallInstruction) ssa.CallInstruction {
+	for depth := 0; depth < 3; depth++ {
+		fn := call.Parent()
+		if fn.Parent() == nil {
+			return call
+		}
+		sites := ir.ClosureSites(fn)
+		if len(sites) != 1 {
+			return call
+		}
+		calls, only := localClosureCalls(sites[0])
+		if !only || len(calls) != 1 {
+			return call
+		}
+		outer, ok := calls[0].(ssa.CallInstruction)
+		if !ok {
+			return call
+		}
+		if ev := ir.ErrResult(call); ev != nil {
+			propagates := ir.HasErrResult(outer)
+			ir.Instrs(fn, func(in ssa.Instruction) {
+				if ret, isRet := in.(*ssa.Return); isRet && mayReturnNilError(ret) {
+					if okOnly, _ := ir.OkOnly(fn, ev, call, ret); !okOnly {
+						// a return that hands on (a wrapping of) the inner error is a failure
+						vals := ir.ReturnValues(ret)
+						if len(vals) == 0 || !ir.DependsOn(vals[len(vals)-1], func(v ssa.Value) bool { return v == ev }) {
+							propagates = false
+						}
+					}
+				}
+			})
+			if !propagates {
+				return call
+			}
+		}
+		call = outer
+	}
+	return call
+}
+
+// closureRunsAt: the instruction of the enclosing function at which a function literal
+// executes synchronously: its only in-place call, or the call that hands it to a
+// repository helper which invokes that parameter itself (`x.withLock(func() {...})`).
+// nil when the literal is stored, started as a goroutine or used in several places.
+func closureRunsAt(fn *ssa.Function) ssa.Instruction {
+	if fn.Parent() == nil {
+		return nil
+	}
+	sites := ir.ClosureSites(fn)
+	if len(sites) != 1 {
+		return nil
+	}
+	mc := sites[0]
+	if calls, only := localClosureCalls(mc); only && len(calls) == 1 {
+		return calls[0]
+	}
+	var at ssa.Instruction
+	n := 0
+	ir.Instrs(mc.Parent(), func(in ssa.Instruction) {
+		c, ok := in.(*ssa.Call)
+		if !ok {
+			return
+		}
+		g := c.Call.StaticCallee()
+		if g == nil || !ir.InRepo(g) || g.Blocks == nil {
+			return
+		}
+		args := c.Call.Args
+		for i, a := range args {
+			if ir.Canon(a) != ssa.Value(mc) || i >= len(g.Params) {
+				continue
+			}
+			invoked, escaped := false, false
+			p := g.Params[i]
+			if p.Referrers() != nil {
+				for _, r := range *p.Referrers() {
+					switch x := r.(type) {
+					case *ssa.Call:
+						if x.Call.Value == ssa.Value(p) {
+							invoked = true
+						} else {
+							escaped = true
+						}
+					case *ssa.DebugRef:
+					default:
+						escaped = true
+					}
+				}
+			}
+			if invoked && !escaped {
+				at = in
+				n++
+			}
+		}
+	})
+	if n == 1 {
+		return at
+	}
+	return nil
+}
